@@ -29,7 +29,7 @@ ASSUMPTIONS = ['file-partition model in pvmon/props/c13.py', "stdlib html.parser
                'the i-th file-producing unit of the AST corresponds to the i-th name issued by Renderable.filename (document order)']
 DECIDING_HOOKS = ['Renderable.filename', 'Filenames.__next__']
 DECIDING_COUNTERS = {'body_markers_located': 500}
-TEMPLATES = ['index [$id, sect$num(4)]', 'index [$id, sect$num(4)]', 'index [$title(3), s$num]', '[$id-$num(2), f$num(3)]', 'a b c [x$num]', '$jobname-$num(3)', 'all']
+TEMPLATES = ['index [$id, sect$num(4)]', 'index [$id, sect$num(4)]', 'index [$title(3), s$num]', 'index [$title, sect$num(4)]', '[$id-$num(2), f$num(3)]', 'a b c [x$num]', '$jobname-$num(3)', 'all']
 BADCHARS = [None, None, (': #$%^&*!~`"\'=?/{}[]()|<>;\\,.', '-'), (': ', '_'), (':;,. -', 'Z')]
 SETUPS = [('HTML5', 'default'), ('HTML5', 'default'), ('HTML5', 'minimal'), ('XHTML', 'default')]
 
@@ -80,7 +80,7 @@ POOLS = {'index [$id, sect$num(4)]': ['index', 'index', 'sect0001', 'sect0002', 
 
 def gen_doc(r, template=None):
     return docs.gen(r, parts=r.random() < 0.3, labels=True, refs=r.random() < 0.5, depth=r.choice([1, 2, 2]), maxsec=r.choice([3, 6, 12]), counters=False,
-                    hostile_labels=r.choice([0, 0.4, 0.8]), hostile_pool=POOLS.get(template), adversarial=r.choice([0, 0, 0.3]), deep6=True, theorems=r.random() < 0.3, eqnarray=False, blocks=(1, 3),
+                    hostile_labels=r.choice([0, 0.4, 0.8]), hostile_pool=POOLS.get(template), adversarial=r.choice([0, 0, 0.3]), deep6=True, empty_titles=r.choice([0, 0, 0.15]), theorems=r.random() < 0.3, eqnarray=False, blocks=(1, 3),
                     cls=r.choice(['article', 'book']))
 
 
